@@ -149,13 +149,18 @@ def check_case(case):
     cnt["faults_sent"] = sum(1 for l in expected if l["kind"] == "fault")
     cnt["valid_sent"] = sum(1 for l in expected if l["kind"].startswith("valid"))
     tmp = tempfile.mkdtemp(prefix="c14.")
-    env = dict(os.environ, PYTHONPATH=str(REPO_SRC), PYTHONDONTWRITEBYTECODE="1", PYTHONHASHSEED="0")
+    env = dict(os.environ, PYTHONPATH=str(REPO_SRC), PYTHONHASHSEED="0")
     env.pop("PYTRAPIC_VERIF", None)
+    env.pop("PYTHONDONTWRITEBYTECODE", None)
+    if os.environ.get("VERIF_PYCACHE"):
+        env["PYTHONPYCACHEPREFIX"] = os.environ["VERIF_PYCACHE"]
+    else:
+        env["PYTHONDONTWRITEBYTECODE"] = "1"
     vio = []
     out = b""
     rc = None
     try:
-        p = subprocess.Popen([PYTHON, "-B", "-m", "stationeers_pytrapic.mod_daemon"], stdin=subprocess.PIPE, stdout=subprocess.PIPE, stderr=subprocess.DEVNULL, cwd=tmp, env=env, bufsize=0)
+        p = subprocess.Popen([PYTHON, "-m", "stationeers_pytrapic.mod_daemon"], stdin=subprocess.PIPE, stdout=subprocess.PIPE, stderr=subprocess.DEVNULL, cwd=tmp, env=env, bufsize=0)
         deadline = time.time() + 150
         try:
             if case["mode"] == "burst":
